@@ -70,6 +70,21 @@ def embed_case(ctx, case, cg, aa):
     rd_pos = [[conf.GetAtomPosition(i).x, conf.GetAtomPosition(i).y, conf.GetAtomPosition(i).z] for i in range(rd.GetNumAtoms())]
     if len(rd_pos) != len(aa) or any(not np.all(np.isfinite(p)) for p in rd_pos):
         ctx.contract('R0', slim, 'RDKit returned a different number of atoms / non-finite coordinates')
+        # the exact comparison with the captured conformer is impossible; the property is still looked at: every atom has
+        # a position and bonded atoms lie at bonding distance (sum of covalent radii, generous 0.6 Å tolerance)
+        rad = {'H': 0.31, 'C': 0.76, 'N': 0.71, 'O': 0.66, 'P': 1.07, 'S': 1.05, 'F': 0.57, 'Cl': 1.02, 'Br': 1.20, 'I': 1.39}
+        for n in aa.nodes:
+            if 'position' not in aa.nodes[n] or not np.all(np.isfinite(aa.nodes[n]['position'])):
+                ctx.fail(slim, f'atom {n} has no finite position after embedding')
+                return
+        for a, b in aa.edges:
+            ea, eb = aa.nodes[a].get('element'), aa.nodes[b].get('element')
+            if ea in rad and eb in rad and aa.edges[a, b].get('order', 1) != 0:
+                d = float(np.linalg.norm(aa.nodes[a]['position'] - aa.nodes[b]['position']))
+                if abs(d - (rad[ea] + rad[eb])) > 0.6:
+                    ctx.fail(slim, f'bonded atoms {a}-{b} ({ea}-{eb}) are {d:.2f} Å apart after embedding (covalent radii sum '
+                                   f'{rad[ea] + rad[eb]:.2f} Å)')
+                    return
         return
     order = list(aa.nodes)
     ctx.feature('embedded')
@@ -214,6 +229,15 @@ def run(ctx):
             case.setdefault('nfrag', 2)
         else:
             case = gen_mol.cut_case(rng, nmin=3, nmax=9, aromatic_p=0.2, share_p=rng.choice([0, 0, 0.3]))
+        if i % 5 == 2 and '}.{' in case['s']:
+            # several molecules in one description (a zero-order bond to a further unit): the parts of the molecule are
+            # not contiguous in node order once hydrogens are added
+            base, rest = case['s'].split('}.{', 1)
+            extra = rng.choice(['O', 'CO', '[Cl-]', 'N'])
+            where = rng.choice(['last', 'first'])
+            base = (base + '.[#W9]') if where == 'last' else ('{[#W9].' + base[1:])
+            case = dict(case, s=base + '}.{' + rest[:-1] + ',#W9=' + extra + '}', nfrag=case.get('nfrag', 2) + 1)
+            ctx.feature('several-molecules')
         # weights on some atoms
         try:
             r = impl.resolver_from_string(case['s'], legacy=case.get('legacy', True))
